@@ -29,3 +29,14 @@ Theorem c10_vertica_swap_no_error :
   analyze (mk_env "vertica" "" "" {| p_truthy := false; p_cols := [] |} []) false w_vertica_swap = Ok empty_graph.
 Proof. vm_compute. reflexivity. Qed.
 Print Assumptions c10_vertica_swap_no_error.
+
+(** On the core fragment of Lemma A the analysis never ends in an error value - in particular in none of the internal
+    ones (index, key, type, assertion) the tree model makes explicit - whatever the trivia and whatever the metadata
+    provider holds (Tree/LemmaAMeta.v). *)
+From SV Require Import Tree.Render Tree.LemmaA Tree.LemmaAProofs Tree.LemmaAMeta.
+
+Theorem c10_core_never_fails : forall noise e s,
+  noise_ok noise = true -> env_ok_md e = true -> stmt_ok s = true -> sshape s = true ->
+  exists g, analyze e false (r_stmt noise s) = Ok g.
+Proof. intros noise e s Hn He Hs Hq. destruct (analysis_succeeds_any_provider noise e s Hn He Hs Hq) as [g [H _]]. exists g. exact H. Qed.
+Print Assumptions c10_core_never_fails.
